@@ -367,9 +367,12 @@ def run_corrupt(ctx, idx):
                           message=f"checker raised instead of reporting {names}: {exc!r}")
             return
         for name, touches, fn, cue in chosen:
-            if name == "feature_length" and "missing[experiment:event count]" in names:
+            if name == "feature_length" and any(
+                    nm == "missing[experiment:event count]" or nm.startswith("event_count_value")
+                    for nm in names):
                 # without the event count the checker takes the length of the first feature
-                # as the reference: the inconsistency is then reported for the *other*
+                # as the reference, and a wrong event count may coincide with the shortened
+                # feature's length: the inconsistency is then reported for the *other*
                 # features - the statement asks for a report, not for a particular name
                 cue = r"wrong event count: '"
                 ctx.count("feature_length_cue_without_event_count")
